@@ -430,11 +430,14 @@ def parseFactor : Nat → List Tok → Except Err (Ast × List Tok)
     match parseFactor f r with
     | .error e => .error e
     | .ok (a, r') => .ok (.pos a, r')
+  | _ + 1, .num _ :: .lp :: _ => .error .unsupported      -- call syntax `2 (…)`: valid Python, outside the fragment
+  | _ + 1, .id _ :: .lp :: _ => .error .unsupported
   | _ + 1, .num n :: r => .ok (.num n, r)
   | _ + 1, .id x :: r => .ok (.var x, r)
   | f + 1, .lp :: r =>
     match parseExpr f r with
     | .error e => .error e
+    | .ok (_, .rp :: .lp :: _) => .error .unsupported
     | .ok (a, .rp :: r') => .ok (a, r')
     | .ok _ => .error .syntax
   | _ + 1, _ => .error .syntax
